@@ -284,6 +284,10 @@ type Task struct {
 	// consecutiveLost is the number of times this task has been run and lost
 	// consecutively. See maxConsecutiveLost.
 	consecutiveLost int
+	// lossUncounted is set when the task is handed to the executor, and
+	// cleared when the outcome of that run has been accounted for in
+	// consecutiveLost, by whichever evaluation observes it first.
+	lossUncounted bool
 
 	// Status is a status object to which task status is reported.
 	Status *status.Task
